@@ -9,6 +9,7 @@ evidence / replay writers and the known-findings filter.
 import os
 import sys
 import json
+import math
 import time
 import random
 import struct
@@ -315,6 +316,44 @@ def driver_parallel(lines, workers=8, chunk=2000):
 
 class DriverError(Exception):
     pass
+
+
+class Watchdog(BaseException):
+    """raised by check.py's overall time limit (BaseException: no `except Exception` of a harness swallows it)"""
+
+
+class CaseTimeout(Exception):
+    """the implementation did not return from one call within the per-case limit: an answer (a wrong one), like an exception"""
+
+
+class time_limit:
+    """with core.time_limit(30): <call of the code under test>   - SIGALRM based, nests inside check.py's watchdog"""
+
+    def __init__(self, seconds):
+        self.seconds = int(max(1, seconds))
+
+    def __enter__(self):
+        import signal
+
+        def _raise(sig, frm):
+            raise CaseTimeout('no return within %d s' % self.seconds)
+        self.t0 = time.time()
+        self.prev_handler = signal.signal(signal.SIGALRM, _raise)
+        self.prev_left = signal.alarm(self.seconds)
+        return self
+
+    def __exit__(self, *exc):
+        import signal
+        signal.alarm(0)
+        signal.signal(signal.SIGALRM, self.prev_handler)
+        if self.prev_left:
+            # re-arm the enclosing limit from its absolute deadline (no drift over thousands of nested limits)
+            left = (DEADLINE[0] - time.time()) if DEADLINE[0] else (self.prev_left - (time.time() - self.t0))
+            signal.alarm(max(1, int(math.ceil(left))))
+        return False
+
+
+DEADLINE = [None]
 
 
 # ---------------------------------------------------------------- findings
